@@ -1,7 +1,53 @@
 """Per-property configuration for bin/check: which proof files carry the
 obligations, which engine runs tie the model to /repo, case budgets per tier."""
 
+WIRE = ["Proofs/WireFacts.v", "Proofs/QueryFacts.v", "Proofs/ReplyFacts.v"]
+
 PROPS = {
+    "C01": {
+        "proof_files": WIRE,
+        "runs": [
+            {"engine": "reply", "args": ["-mode", "seq"], "n_quick": 1200, "n_thorough": 60000, "netns": True},
+            {"engine": "reply", "args": ["-mode", "conc"], "n_quick": 1500, "n_thorough": 150000, "netns": True},
+        ],
+        "trivial_tags": [r"/small"],
+        "rule": "random well-formed/damaged queries x upstream outcomes (up/err/empty/err-with-bytes/hang) x UDP/TCP, one at a time "
+                "(seq), plus batches of concurrent UDP clients and pipelined TCP clients whose handlers rendezvous in the upstream and "
+                "are released together (conc); every reply compared byte-for-byte with the extracted `serve`; the extracted c01_ok "
+                "spec is evaluated on the implementation's own reply. distinct = distinct (proto, query, outcome, upstream message); "
+                "non-trivial = query longer than 14 bytes",
+        "assumptions": ["upstream echoes ID and question (the proxy relays without checking)",
+                        "advertised EDNS size <= 65507 (the property's quantifier); larger sizes are still compared with the model",
+                        "a single net.Conn.Write is atomic with respect to other writes"],
+    },
+    "C02": {
+        "proof_files": WIRE + ["Mutants/QuerySpin.v"],
+        "runs": [
+            {"engine": "query", "args": [], "n_quick": 6000, "n_thorough": 400000},
+            {"engine": "reply", "args": ["-mode", "seq"], "n_quick": 1200, "n_thorough": 40000, "netns": True},
+        ],
+        "trivial_tags": [],
+        "rule": "structured generator (valid header; 0-3 questions; records in all sections; OPT anywhere with 0-6 options incl. ECS/MAC; "
+                "compression pointers forward/backward/self/chained up to 14; non-OPT additionals) + mutation stream (truncate, flip, splice, "
+                "inflate counts, insert pointers) + random bytes + large messages; query.New runs in a worker sub-process under a 3 s "
+                "watchdog (spin) with crash detection; the live proxy gets the same families over UDP and TCP. distinct = distinct byte "
+                "strings; non-trivial = all (every byte string is in the property's quantifier)",
+        "assumptions": ["Go runtime, net and x/net control-message code are not modelled",
+                        "peer is a loopback address: ARP/NDP table lookups return nothing (environment)"],
+    },
+    "C13": {
+        "proof_files": WIRE,
+        "runs": [
+            {"engine": "query", "args": ["-mode", "ecs"], "n_quick": 5000, "n_thorough": 300000},
+            {"engine": "reply", "args": ["-mode", "seqecs"], "n_quick": 800, "n_thorough": 30000, "netns": True},
+        ],
+        "trivial_tags": [r"^perr$", r"^ok$", r"/perr"],
+        "rule": "queries with 1-6 EDNS options (ECS v4/32, v6/128, other prefix lengths/families, short ECS, MAC, unknown codes) at any "
+                "position, also damaged; compared: PeerIP, MAC and the payload after rewriting (query engine) and the bytes the "
+                "upstream actually received through the live proxy (reply engine), plus the extracted c13_ok spec on those bytes. "
+                "non-trivial = the model reached the option loop (tags ok+ecs / ok+opt)",
+        "assumptions": ["ECS options of 256 bytes or more are outside the premise (invalid per RFC 7871)"],
+    },
     "C05": {
         "proof_files": ["Proofs/ReplyFacts.v"],
         "runs": [
